@@ -1,6 +1,6 @@
 TITLE = "squash_in overwrites: the new event occupies [start, start+d), the rest stays"
-IMPORTS = ["From Coq Require Import ZArith List Bool.",
-           "From MV Require Import Base.Res Model.EventTree Model.TreeOps Proofs.TreeLemmas Proofs.SplitBase Proofs.Squash.",
+IMPORTS = ["From Coquelicot Require Import Coquelicot.", "From Coq Require Import ZArith List Bool.",
+           "From MV Require Import Base.Res Model.EventTree Model.TreeOps Model.Num Model.Envelope Proofs.TreeLemmas Proofs.SplitBase Proofs.Squash Proofs.RNum Proofs.Resample Proofs.EnvSquash.",
            "Import ListNotations.", "Open Scope Z_scope."]
 ENTRIES = [
  ("C05_sequence", "squash_in_seq", "into a sequence at 0 <= start <= duration: duration max(old, start+d); the new event occupies [start, start+d) and begins exactly at start (it is the i-th child and the children before it sum to start); everything before start and after start+d stays at its old time (at_seq of the result equals at_seq of the original there); same tag and tempo"),
@@ -9,6 +9,11 @@ ENTRIES = [
  ("C05_negative_start_rejected", "squash_in_negative", "a start below 0 is rejected"),
  ("C05_start_beyond_duration_rejected", "squash_in_beyond", "a start beyond the duration is rejected"),
  ("C05_leaf_child_rejected", "squash_in_leaf_voice", "squashing into a simultaneity is rejected if a child is a leaf"),
+ ("C05_envelope_receiver_behind_end_rejected", "p_squash_rejects_behind_end", "with an envelope (a sequence of control points, any number type) as the receiver: a start behind its end is rejected - the envelope is not prolonged"),
+ ("C05_envelope_receiver_negative_rejected", "p_squash_rejects_negative", ""),
+ ("C05_envelope_receiver_at_end", "squash_at_end", "a new control point at the end is appended"),
+ ("C05_envelope_receiver_inside_a_point", "squash_mid", "a new control point that begins inside a control point and reaches exactly to the next one: the point is divided, the rest of the envelope stays"),
+ ("C05_envelope_receiver_inside_last_point", "squash_last_short", "inside the last control point: the point is divided around the new one"),
 ]
 EXTRA = """(* what the general statement says about one event *)
 Print sq_ok. Print sq_post. Print emb.
